@@ -257,7 +257,7 @@ def gram_schmidt_rules(check, repo: Repo) -> None:
     }
     for k, (ok, detail, node) in g.facts.items():
         title, fail = titles[k]
-        check.decide(ok, "C10-R2", title, detail, pmod.line(node), fail_detail=f"{detail}: {fail}")
+        check.decide(ok, "C10-R2", title, detail, pmod.line(node), fail_detail=f"{detail}: {fail}", definite=True)      # verdict of the abstract interpreter
     check.floor("Gram–Schmidt facts", len(g.facts), 11)
 
 MANIFEST = {
